@@ -11,6 +11,7 @@ import (
 	"fmt"
 	"math/rand"
 	"sort"
+	"time"
 
 	"github.com/smartcontractkit/libocr/offchainreporting2/types"
 	"github.com/smartcontractkit/libocr/offchainreporting2plus/ocr3types"
@@ -37,6 +38,9 @@ type obvOut struct {
 
 var obvBlob = []byte("ATTESTED:blob")
 
+// the harness's own clock readings around the last call of Plugin.Observation
+var obvT0, obvT1 int64
+
 func runObv(in obvIn) (obvOut, *llo.Observation) {
 	rc := newMockRetirementCache()
 	switch in.Att {
@@ -58,11 +62,13 @@ func runObv(in obvIn) (obvOut, *llo.Observation) {
 	n.ds.vals = in.Values
 	n.ds.fail = in.SourceFail
 	var raw []byte
+	obvT0 = time.Now().UnixNano()
 	e, panicked, pv := protect(func() error {
 		var e error
 		raw, e = n.plugin.Observation(context.Background(), ocr3types.OutcomeContext{SeqNr: in.Seq, PreviousOutcome: unhx(in.Prev)}, nil)
 		return e
 	})
+	obvT1 = time.Now().UnixNano()
 	switch {
 	case panicked:
 		return obvOut{Kind: "panic", Text: fmt.Sprint(pv)}, nil
@@ -121,8 +127,8 @@ func obvCase(in obvIn, tags ...string) caseRec {
 	case "fail":
 		ret = "(Err EOther)"
 	}
-	coq := fmt.Sprintf("OBV %s %d %s %s %s %s (list_to_map %s) %s %s", coqCfg(in.Cfg), in.Seq, coqHex(unhx(in.Prev)), att, ret,
-		coqDefs(expDefs(in.Expected)), coqList(vals), coqBool(in.SourceFail), res)
+	coq := fmt.Sprintf("OBV %s %d %s %s %s %s (list_to_map %s) %s %s %d %d", coqCfg(in.Cfg), in.Seq, coqHex(unhx(in.Prev)), att, ret,
+		coqDefs(expDefs(in.Expected)), coqList(vals), coqBool(in.SourceFail), res, obvT0, obvT1)
 	return caseRec{Input: in, Output: out, Coq: coq, Tags: tags}
 }
 
@@ -162,6 +168,11 @@ func cmdObserve(seed int64, n int, out, replay, tier string) {
 			tag := "valid-previous"
 			o := llo.Outcome{LifeCycleStage: llotypes.LifeCycleStage([]string{"production", "production", "staging", "retired", "other"}[r.Intn(5)]),
 				ObservationTimestampNanoseconds: 1700000000e9, ChannelDefinitions: llotypes.ChannelDefinitions{}, ValidAfterNanoseconds: map[llotypes.ChannelID]uint64{}}
+			if r.Intn(4) == 0 {
+				// a previous outcome whose timestamp is ahead of this node's clock (other nodes' clocks run ahead)
+				o.ObservationTimestampNanoseconds = uint64(time.Now().Add(time.Hour).UnixNano())
+				tag = "previous-outcome-ahead-of-clock"
+			}
 			for k := r.Intn(9); k > 0; k-- {
 				id := uint32(1 + r.Intn(14))
 				d := g.randDef()
